@@ -388,7 +388,21 @@ class _LSBase(Sub):
             k = min(it.m, it.n)
             if 0 < it.r < k:
                 sv = np.linalg.svd(it.A, compute_uv=False)
-                if sv[it.r] > AMBIG * max(it.m, it.n) * eps * sv[0]:
+                # ... and as the routine under test sees it: torch.linalg.pinv applies its cut-off to singular values (or, with
+                # hermitian=True, to eigenvalues from eigh) COMPUTED IN THE DTYPE, which carry an absolute error of a few eps |A| -
+                # the size of the cut-off itself for small n.  A noise value that is 0.1 of the cut-off exactly can come out of eigh
+                # above it (found by an independent false-alarm audit: n = 4, hermitian, |x| = 8e13).  The rank is then ambiguous at
+                # rounding level, whichever side pypose lands on.
+                seen = [float(sv[it.r]) / float(sv[0])]
+                try:
+                    st_ = torch.linalg.svdvals(tA)
+                    seen.append(float(st_[it.r]) / float(st_[0]))
+                    if it.m == it.n and bool(case.get("hermitian")):
+                        ev = torch.linalg.eigh(tA).eigenvalues.abs().sort(descending=True).values      # eigh, as pinv calls it (eigvalsh is a different algorithm with other noise)
+                        seen.append(float(ev[it.r]) / float(ev[0]))
+                except Exception:
+                    pass
+                if max(seen) > AMBIG * max(it.m, it.n) * eps:
                     rec.discard_case("rank of the float matrix ambiguous under the default rcond")
             it.xs = _xstar(it, it.b)
             items.append(it)
